@@ -32,6 +32,8 @@ def _scan(root):
         for d, dirs, files in os.walk(base):
             dirs[:] = [x for x in dirs if x not in _SKIP_DIRS]
             for f in files:
+                if '.hdrtest.' in f or f.startswith('tmp'):
+                    continue        # scratch files of a `make check` running in the repository
                 if f.endswith(_SRC_EXT) or d.startswith(os.path.join(root, 'errors')):
                     p = os.path.join(d, f)
                     try:
@@ -53,7 +55,7 @@ def _sync_sources(tree, fresh):
         old = json.load(open(man_path))
     changed = []
     if not fresh or old:
-        for rel, sig in cur.items():
+        for rel, sig in list(cur.items()):
             if old.get(rel) != sig:
                 dst = os.path.join(tree, rel)
                 src = os.path.join(REPO, rel)
@@ -64,7 +66,11 @@ def _sync_sources(tree, fresh):
                 except OSError:
                     pass
                 vlib.mkdirs(os.path.dirname(dst))
-                shutil.copyfile(src, dst)
+                try:
+                    shutil.copyfile(src, dst)
+                except FileNotFoundError:
+                    cur.pop(rel, None)       # vanished between the scan and the copy (a build in the repository)
+                    continue
                 changed.append(rel)
         for rel in old:
             if rel not in cur:
